@@ -9,6 +9,7 @@
 # (len in 0..255 restricted by the guard atoms) x (loop range).  Nothing is
 # compiled to code or run.
 
+import copy
 import os
 import re
 import shutil
@@ -33,7 +34,15 @@ EXPLANATION = (
     "so an early exit on the output counter is decided by comparing its folded threshold with the number of walked "
     "bits. The callers (gsm48_decode_sysinfo4, gsm48_rr_render_ma) are sliced too, behind synthesised declarations: "
     "the guard atoms dominating each call are folded over the finite box (remaining octets x length octet) and must "
-    "imply that the bitmap handed to the decoder lies inside the received message / the LV buffer.")
+    "imply that the bitmap handed to the decoder lies inside the received message / the LV buffer. "
+    "The decision does not depend on how the decoder is cut into functions or temporaries: a helper of sysinfo.c that the "
+    "decoder calls as a statement of its own is put into the slice and its body replaces the call on the clang AST (exact: "
+    "parameters never written stand for their side-effect-free arguments, locals renamed apart, single trailing return "
+    "becomes the assignment of the result; C20.R0 records it), so the same rules decide the combined body; a local that "
+    "is a frozen copy (single definition dominating all uses, its sources not written afterwards) is replaced by its "
+    "source, and a tested temporary is replaced by the value it holds when nothing that value depends on is written "
+    "between its definition and the test. A condition or bound the rules cannot read (opaque memory, unrelatable local) "
+    "gives no verdict instead of an alarm.")
 ASSUMPTIONS = [
     "clang 14 parses the sliced function exactly as the layer23 build would (prelude models only declarations: stdint.h, EINVAL sign, struct gsm_sysinfo_freq {uint8_t mask;}, FREQ_TYPE_* values and array extents read from sysinfo.h, LOGP reduced to the evaluation of its value arguments)",
     "int is 32 bit: no counter in the function exceeds 2040, so machine arithmetic coincides with integer arithmetic",
@@ -41,6 +50,7 @@ ASSUMPTIONS = [
     "message parsers that call the decoder: their length parameter is the number of octets readable at the message pointer and the message struct is packed (sizeof(*msg) is the offset of its trailing data[]), so `remaining` starts as the exact count of octets at the cursor (C20.R6 checks the initialisation shape, the paired advances and the guards)",
     "the callers are parsed as function slices behind synthesised declarations (K&R prototypes for callees, `extern const int` for upper-case constants, structs reduced to the members used, real scalar types where the struct is found in the tree); only literals, the function's own locals and guards over them are interpreted; upper-case function-like macros (OSMO_MIN, LOGP) neither change control flow nor assign to locals; callees do not modify the received message between a guard and the call",
     "snprintf returns the untruncated length (C99) and never writes more than its size argument",
+    "a function the decoder calls that has a definition in sysinfo.c is that definition (no other translation unit overrides it); integer conversions at its parameters / result are value preserving unless they narrow to a type smaller than int (then the call is not inlined)",
 ]
 
 F_SYS = "src/host/layer23/src/common/sysinfo.c"
@@ -512,6 +522,14 @@ def ev(t, vals):
     raise Unknown(k)
 
 
+def subterms_of(t):
+    yield t
+    for x in t[1:]:
+        if isinstance(x, tuple):
+            for y in subterms_of(x):
+                yield y
+
+
 def free_vars(t, out=None):
     """variable leaves of a term; '<mem>' if it reads memory / calls"""
     out = set() if out is None else out
@@ -564,12 +582,14 @@ class Write:
 class FM:
     """Facts about one C function on its statement CFG."""
 
-    def __init__(self, tu, fdecl, line_off=0, extra_invariant=(), dup_ok=False):
+    def __init__(self, tu, fdecl, line_off=0, extra_invariant=(), dup_ok=False, copies=False):
         self.tu = tu
         self.f = fdecl
         self.off = line_off
         self.extra_invariant = set(extra_invariant)
         self.dup_ok = dup_ok
+        self.copies = copies        # forward-substitute frozen copies too (see _env)
+        self.copy_of = {}           # local -> variables it is a frozen copy of
         self.dups = set()
         self.g = CCFG(tu, fdecl)
         self.params = [p.get("name") for p in tu.fparams(fdecl)]
@@ -672,7 +692,13 @@ class FM:
 
     def _env(self):
         """single-definition locals whose value is a pure expression of
-        never-written parameters: forward-substituted everywhere"""
+        never-written parameters: forward-substituted everywhere.
+        With copies=True also *frozen copies*: `v = e` is the only write of v, it dominates every use of v,
+        and every variable of the pure expression e is a local that is not written any more once the copy was
+        taken (no write of it is reachable from the defining statement).  Then v == e (evaluated at the use)
+        wherever v is used, so v is replaced by e -- the result variable of an inlined helper (`n = h__j`), or
+        a temporary holding the list length, is the counter itself for every rule.  Such a v is not invariant
+        (its source changes before the copy)."""
         self.invariant = {p for p in self.params if self.never_written(p)} | self.extra_invariant
         changed = True
         while changed:
@@ -681,7 +707,10 @@ class FM:
                 if v in self.LW.env or v not in self.locals or len(ws) != 1 or v in self.addr or v in self.dups:
                     continue
                 w = ws[0]
-                if w.how not in ("init", "assign") or not self._pure(w.val, self.invariant):
+                if w.how not in ("init", "assign"):
+                    continue
+                inv = self._pure(w.val, self.invariant)
+                if not inv and not (self.copies and self._pure(w.val, self.invariant | self.frozen_at(w.node, v))):
                     continue
                 ok = True
                 for (un, a) in self.uses.get(v, []):
@@ -692,8 +721,25 @@ class FM:
                 if not ok:
                     continue
                 self.LW.env[v] = self.LW.lower(w.val)
-                self.invariant.add(v)
+                if inv:
+                    self.invariant.add(v)
+                else:
+                    self.copy_of[v] = sorted(free_vars(self.LW.env[v]) - self.invariant)
                 changed = True
+
+    def frozen_at(self, node, but):
+        """scalar locals (not `but`) whose value cannot change once `node` was executed: no write of them is
+        reachable from it (a write at `node` itself, e.g. inside a loop, is reachable from it)"""
+        after = self.reach_succ(node)
+        out = set()
+        for u, vd in self.locals.items():
+            qt = vd.get("type", {}).get("qualType", "")
+            if u == but or u in self.addr or u in self.dups or "[" in qt or "*" in qt:
+                continue
+            if any(w.node.id in after or w.node is node for w in self.writes.get(u, [])):
+                continue
+            out.add(u)
+        return out
 
     def _own(self, w, a):
         # the use inside the defining statement is the assignment's own lvalue
@@ -748,6 +794,9 @@ class FM:
             t = self.lower(e)
         except AnalysisError:
             return (X.V("<opaque %s>" % ctext(e)[:40]), pol)
+        return self.norm_term(t, pol)
+
+    def norm_term(self, t, pol):
         while t[0] == "not":
             t, pol = t[1], not pol
         if t[0] == "cmp" and t[1] == "==":
@@ -763,6 +812,82 @@ class FM:
             t, pol = t[1], not pol
         return (t, pol)
 
+    # -- temporaries that hold a tested value ------------------------------------
+    def _readonly(self, e):
+        for x in walk(e):
+            k = kind(x)
+            if k in ("CallExpr", "StmtExpr", "CompoundAssignOperator") or \
+                    (k == "UnaryOperator" and x.get("opcode") in ("++", "--", "&")) or \
+                    (k == "BinaryOperator" and x.get("opcode") in ("=", ",")):
+                return False
+        return True
+
+    def temp_value(self, x, at, depth=0):
+        """term of the local x at CFG node `at` if x is a temporary there: exactly one definition `x = e` reaches
+        `at` and e has no side effects.  e is taken at the definition (its own temporaries resolved there); what is
+        left of it must still mean the same at `at`: none of its variables -- and no memory at all, if it reads
+        memory -- is written on a path from the definition to `at`.  None otherwise."""
+        if depth > 3 or x not in self.locals or x in self.addr or x in self.dups or x in self.LW.env:
+            return None
+        defs = self.reaching_defs(x, at)
+        if len(defs) != 1 or defs[0] == "undef" or defs[0].how not in ("init", "assign") or defs[0].node is at:
+            return None
+        d = defs[0]
+        if not self._readonly(d.val):
+            return None
+        try:
+            t = self.subst_temps(self.lower(d.val), d.node, depth + 1)
+        except AnalysisError:
+            return None
+        fv = free_vars(t)
+        names = {v for v in fv if v in self.locals or v in self.params}
+        mem = bool(fv - names - self.invariant)            # element reads, member texts, opaque leaves
+        if x in names or names & self.addr:
+            return None
+        ws = [w for v in names for w in self.writes.get(v, [])]
+        if mem:
+            bases = self.read_bases(t)
+            for w in self.memwrites:
+                wb = self.store_base(kids(w.ast)[0])
+                # a store into a local array cannot change what is read through another base
+                if bases is not None and wb in self.locals and wb not in bases and \
+                        "[" in self.locals[wb].get("type", {}).get("qualType", ""):
+                    continue
+                ws.append(w)
+        if any(at.id in self.reach_succ(w.node, skip=[d.node]) or w.node is d.node for w in ws):
+            return None
+        return t
+
+    def read_bases(self, t):
+        """names through which the term reads memory (None: not all are identifiable)"""
+        out = set()
+        for x in subterms_of(t):
+            if x[0] == "idx" or (x[0] == "call" and x[1] == "deref"):
+                b = x[1] if x[0] == "idx" else x[2]
+                if b[0] != "v" or not (b[1] in self.locals or b[1] in self.params):
+                    return None
+                out.add(b[1])
+            elif x[0] == "call" and not x[1].startswith("."):
+                return None
+            elif x[0] == "v" and not (x[1] in self.locals or x[1] in self.params or x[1] in self.invariant):
+                return None
+        return out
+
+    def store_base(self, lv):
+        lv = strip(lv)
+        while lv is not None and kind(lv) in ("ArraySubscriptExpr", "MemberExpr") or \
+                (kind(lv) == "UnaryOperator" and lv.get("opcode") == "*"):
+            lv = strip(kids(lv)[0])
+        return lv.get("referencedDecl", {}).get("name") if lv is not None and kind(lv) == "DeclRefExpr" else None
+
+    def subst_temps(self, t, at, depth=0):
+        if t[0] == "v":
+            r = self.temp_value(t[1], at, depth)
+            return t if r is None else r
+        if t[0] == "c":
+            return t
+        return tuple(self.subst_temps(x, at, depth) if isinstance(x, tuple) else x for x in t)
+
     def atoms(self, node):
         """[(term, pol, cond node, label)] edge-dominating `node`"""
         if node.id not in self._gcache:
@@ -771,6 +896,11 @@ class FM:
                 if c.kind == "cond" and getattr(c, "cond", None) and isinstance(l, bool):
                     for (e, p) in conj_atoms(c.cond, l):
                         t, p2 = self.norm(e, p)
+                        if self.copies:
+                            # a tested temporary (`serv = freq[..].mask & FLAG; if (serv)`) is the tested value
+                            t2 = self.subst_temps(t, c)
+                            if t2 != t:
+                                t, p2 = self.norm_term(t2, p2)
                         out.append((t, p2, c, l))
             self._gcache[node.id] = out
         return self._gcache[node.id]
@@ -983,6 +1113,7 @@ def build_slice(L):
     with open(L.unit(F_SYS), "r", encoding="utf-8", errors="surrogateescape") as f:
         src = f.read()
     body, first = slice_function(src, FN)
+    helpers = local_helpers(src, body, {fi[0] for fi in CFile(L, F_SYS).funcs})          # [(name, text, first line)] callees defined in sysinfo.c, callee first
     with open(L.unit(F_HDR), "r", encoding="utf-8", errors="surrogateescape") as f:
         hdr = blank_strings(strip_comments(f.read()))
     macros, _, mac_lines = const_macros(hdr, src, first)     # unused macros are never expanded: all are handed over verbatim
@@ -1017,10 +1148,17 @@ def build_slice(L):
         if fm.get("mask", (None,))[0] != "uint8_t":
             raise AnalysisError("struct gsm_sysinfo_freq.mask is not uint8_t in %s" % F_IE)
     pre = ["#include <stdint.h>", "#define EINVAL 22", "#define LOGP(ss, level, fmt, args...) ((void)(0, ## args))"]
-    pre += mac_lines + util_macros(L, body)[0]
+    pre += mac_lines + util_macros(L, "\n".join([body] + [h[1] for h in helpers]))[0]
     pre += ["struct gsm_sysinfo_freq { uint8_t mask; } __attribute__ ((packed));",
             "struct gsm48_sysinfo { struct gsm_sysinfo_freq freq[%d]; uint16_t hopping[%d]; uint8_t hopp_len; };" % (
                 ext["freq"], ext["hopping"])]
+    # helper definitions stand between the prelude and the decoder; real line = slice line + offset of the function
+    offs, at = {}, len(pre) + 1
+    for (hn, ht, hfirst) in helpers:
+        offs[hn] = hfirst - at
+        pre += ht.split("\n")
+        at = len(pre) + 1
+    offs[FN] = first - at
     text = "\n".join(pre) + "\n" + body + "\n"
     tmp = tempfile.mkdtemp(prefix="vsa-c20-", dir=os.environ.get("TMPDIR") or "/var/tmp")
     try:
@@ -1032,9 +1170,259 @@ def build_slice(L):
         shutil.rmtree(tmp, ignore_errors=True)
     fd = tu.func(FN)
     L.fn(F_SYS, FN)
-    fm = FM(tu, fd, line_off=first - (len(pre) + 1))
+    inlined = inline_helpers(tu, fd, FN, offs)
+    for (hn, site) in inlined:
+        L.fn(F_SYS, hn)
+        L.ob("C20.R0", F_SYS, FN, "helper %s() defined in sysinfo.c is analysed as part of the decoder: its body replaces the call `%s` "
+             "(parameters are never written and stand for side-effect-free arguments, locals renamed apart, the single "
+             "trailing return becomes the assignment of the result)" % (hn, site), "inlined", "inlined", True)
+    fm = FM(tu, fd, line_off=offs[FN], copies=True)
     return fm, {"SERV": ft["FREQ_TYPE_SERV"], "HOPP": ft["FREQ_TYPE_HOPP"], "NFREQ": ext["freq"],
-                "NHOP": ext["hopping"], "hdr": hdr}
+                "NHOP": ext["hopping"], "hdr": hdr, "inlined": [hn for (hn, _) in inlined]}
+
+
+# ============================================================ helper inlining
+#
+# The decoder may delegate a part of its work to a helper function of sysinfo.c (e.g. the construction of the
+# ordered cell-allocation list).  The property speaks about what the decoder computes, not about how the code is
+# cut into functions, so such a helper is analysed *as part of the decoder*: its definition is put into the slice
+# and its body replaces the call on the clang AST.  The replacement is exact under side conditions that are all
+# checked (anything else leaves the call where it is and the decoder is then unclassifiable -> ANALYSIS-ERROR):
+#   * the call is a statement of its own: `h(...);`, `x = h(...);` or `T x = h(...);`
+#   * the helper has no labels / static locals, is not variadic, and returns only through one trailing `return`
+#   * its parameters are never written and never have their address taken, so each one stands for its argument;
+#     the arguments are free of side effects, calls and memory reads and are not narrowed by the parameter type
+#   * its locals are renamed apart from every name of the decoder.
+
+NARROW = ("unsigned char", "char", "signed char", "unsigned short", "short", "_Bool", "bool")
+
+
+def local_helpers(src, body, defined, depth=4):
+    """functions defined in the same source file (names `defined`) that `body` calls (transitively, callee before caller)"""
+    out, seen = [], {FN}
+
+    def visit(text, d):
+        for m in re.finditer(r"\b([A-Za-z_]\w*)\s*\(", blank_strings(strip_comments(text))):
+            nm = m.group(1)
+            if nm in defined and nm not in seen:
+                seen.add(nm)
+                if d >= depth:
+                    raise AnalysisError("%s(): helper calls nested deeper than %d" % (FN, depth))
+                ht, hfirst = slice_function(src, nm)
+                visit(ht, d + 1)
+                out.append((nm, ht, hfirst))
+    visit(body, 0)
+    return out
+
+
+def _narrowing(e):
+    """the top-level implicit conversions of e narrow an integer"""
+    n = e
+    while n is not None and kind(n) in SKIP:
+        if kind(n) == "ImplicitCastExpr" and n.get("castKind") == "IntegralCast":
+            t = n.get("type", {})
+            if (t.get("desugaredQualType") or t.get("qualType", "")).replace("const ", "").strip() in NARROW:
+                src_t = strip(n).get("type", {}) if strip(n) is not None else {}
+                if (src_t.get("desugaredQualType") or src_t.get("qualType")) != (t.get("desugaredQualType") or t.get("qualType")):
+                    return True
+        ks = kids(n)
+        n = ks[0] if ks else None
+    return False
+
+
+def _arg_ok(e):
+    for x in walk(e):
+        k = kind(x)
+        if k in ("CallExpr", "StmtExpr", "ArraySubscriptExpr", "MemberExpr", "CompoundAssignOperator", "ConditionalOperator"):
+            return False
+        if k == "UnaryOperator" and x.get("opcode") in ("++", "--", "*", "&"):
+            return False
+        if k == "BinaryOperator" and x.get("opcode") in ("=", ","):
+            return False
+    return not _narrowing(e)
+
+
+def _stmt_slot(tu, s):
+    """(container, index) if AST node s stands where a statement stands"""
+    p = tu.parent.get(id(s))
+    if p is None:
+        return None
+    inner = p.get("inner", [])
+    idx = [i for i, c in enumerate(inner) if c is s]
+    if len(idx) != 1:
+        return None
+    i, k = idx[0], kind(p)
+    if k == "CompoundStmt":
+        return p, i
+    if k == "IfStmt":
+        return (p, i) if i >= len(inner) - (2 if p.get("hasElse") else 1) else None
+    if k == "ForStmt":
+        return (p, i) if i == 4 else None
+    if k == "WhileStmt":
+        return (p, i) if i == len(inner) - 1 else None
+    if k == "DoStmt":
+        return (p, i) if i == 0 else None
+    return None
+
+
+def _reparent(tu, n, parent):
+    tu.parent[id(n)] = parent
+    for c in n.get("inner", []) or []:
+        if isinstance(c, dict) and c:
+            _reparent(tu, c, n)
+
+
+def _ref(decl):
+    return {"kind": "DeclRefExpr", "type": decl.get("type", {}), "valueCategory": "lvalue", "_line": decl.get("_line"),
+            "referencedDecl": {"id": decl.get("id"), "kind": kind(decl), "name": decl.get("name"), "type": decl.get("type", {})}}
+
+
+def inline_helpers(tu, fd, fname, offs, rounds=12):
+    """replace statement-level calls of functions that have a body in `tu` by their bodies.
+    -> [(helper name, text of the replaced call)]"""
+    done, keep, serial = [], [], [0]
+    for _ in range(rounds):
+        body = tu.body(fd)
+        site = None
+        for c in walk(body):
+            if kind(c) != "CallExpr":
+                continue
+            cal = strip(kids(c)[0])
+            rd = cal.get("referencedDecl", {}) if kind(cal) == "DeclRefExpr" else {}
+            h = tu.functions.get(rd.get("name")) if rd.get("kind") == "FunctionDecl" else None
+            if h is not None and any(kind(x) == "CompoundStmt" for x in kids(h)):
+                site = (c, h)
+                break
+        if site is None:
+            return done
+        c, h = site
+        hname = h.get("name")
+        if h is fd:
+            raise AnalysisError("%s() is recursive (unclassifiable)" % fname)
+
+        def refuse(why):
+            raise AnalysisError("%s(): call `%s` of the helper %s() cannot be analysed as part of the decoder: %s" % (
+                fname, ctext(c)[:60], hname, why))
+        # ---- the call site
+        top = c
+        while tu.parent.get(id(top)) is not None and kind(tu.parent[id(top)]) in SKIP:
+            top = tu.parent[id(top)]
+        par = tu.parent.get(id(top))
+        target, decl_stmt = None, None
+        slot = _stmt_slot(tu, top)
+        if slot is None and kind(par) == "BinaryOperator" and par.get("opcode") == "=" and kids(par)[1] is top and \
+                kind(strip(kids(par)[0])) == "DeclRefExpr" and \
+                strip(kids(par)[0]).get("referencedDecl", {}).get("kind") in ("VarDecl", "ParmVarDecl"):
+            st = par
+            while tu.parent.get(id(st)) is not None and kind(tu.parent[id(st)]) in SKIP:
+                st = tu.parent[id(st)]
+            slot = _stmt_slot(tu, st)
+            target = copy.deepcopy(strip(kids(par)[0]))
+            if _narrowing(top):
+                slot = None
+        elif slot is None and kind(par) == "VarDecl" and kind(tu.parent.get(id(par))) == "DeclStmt":
+            ds = tu.parent[id(par)]
+            slot = _stmt_slot(tu, ds)
+            later = kids(ds)[kids(ds).index(par) + 1:]
+            if slot is None or kind(slot[0]) != "CompoundStmt" or any(kids(x) for x in later) or _narrowing(top) or \
+                    "[" in par.get("type", {}).get("qualType", ""):
+                slot = None
+            else:
+                target, decl_stmt = _ref(par), ds
+        if slot is None:
+            refuse("it is not a statement of its own (`h(...);`, `x = h(...);`, `T x = h(...);`)")
+        # ---- the helper
+        hbody = tu.body(h)
+        params = tu.fparams(h)
+        args = kids(c)[1:]
+        if h.get("variadic") or "..." in h.get("type", {}).get("qualType", "") or len(params) != len(args):
+            refuse("variadic helper / argument count")
+        pids = {p.get("id"): k for k, p in enumerate(params)}
+        rets = [x for x in walk(hbody) if kind(x) == "ReturnStmt"]
+        if len(rets) > 1 or (rets and kids(hbody)[-1] is not rets[0]):
+            refuse("it returns from more than one place / not at its end")
+        rexpr = kids(rets[0])[0] if rets and kids(rets[0]) else None
+        if target is not None and rexpr is None:
+            refuse("its result is used but it returns no value")
+        if rexpr is not None and _narrowing(rexpr):
+            refuse("its result is narrowed by the return type")
+        for x in walk(hbody):
+            k = kind(x)
+            if k in ("LabelStmt", "GotoStmt", "AddrLabelExpr"):
+                refuse("it uses labels")
+            if k == "VarDecl" and x.get("storageClass") in ("static", "extern"):
+                refuse("it has a static local")
+            tgt = None
+            if (k == "BinaryOperator" and x.get("opcode") == "=") or k == "CompoundAssignOperator" or \
+                    (k == "UnaryOperator" and x.get("opcode") in ("++", "--", "&")):
+                tgt = strip(kids(x)[0])
+            if tgt is not None and kind(tgt) == "DeclRefExpr" and tgt.get("referencedDecl", {}).get("id") in pids:
+                refuse("it modifies (or takes the address of) its parameter `%s`" % tgt["referencedDecl"].get("name"))
+        for a, p in zip(args, params):
+            if not _arg_ok(a):
+                refuse("argument `%s` for `%s` has side effects, reads memory or is narrowed" % (ctext(a)[:40], p.get("name")))
+        # ---- the copy
+        taken = {x.get("name") for x in walk(fd) if kind(x) in ("VarDecl", "ParmVarDecl")}
+        taken |= {x.get("referencedDecl", {}).get("name") for x in walk(fd) if kind(x) == "DeclRefExpr"}
+        serial[0] += 1
+        shift = offs.get(hname, 0) - offs.get(fname, 0)
+        names, ids = {}, {}
+
+        def fresh(nm):
+            cand, k = "%s__%s" % (hname, nm), 1
+            while cand in taken:
+                k += 1
+                cand = "%s__%s%d" % (hname, nm, k)
+            taken.add(cand)
+            return cand
+
+        def rw(n):
+            if not isinstance(n, dict) or not n:
+                return n
+            if kind(n) == "DeclRefExpr":
+                rd = n.get("referencedDecl", {})
+                if rd.get("id") in pids and rd.get("kind") == "ParmVarDecl":
+                    a = copy.deepcopy(args[pids[rd["id"]]])
+                    return {"kind": "ParenExpr", "type": a.get("type", {}), "valueCategory": a.get("valueCategory"),
+                            "_line": (n.get("_line") or 0) + shift if n.get("_line") is not None else None, "inner": [a]}
+            m = {k: v for k, v in n.items() if k != "inner"}
+            if m.get("_line") is not None:
+                m["_line"] = m["_line"] + shift
+            if kind(n) == "VarDecl":
+                names[n.get("id")] = fresh(n.get("name"))
+                ids[n.get("id")] = "%s.inl%d" % (n.get("id"), serial[0])
+                m["name"], m["id"] = names[n["id"]], ids[n["id"]]
+            elif kind(n) == "DeclRefExpr":
+                rd = dict(n.get("referencedDecl", {}))
+                if rd.get("id") in names:
+                    rd["name"], rd["id"] = names[rd["id"]], ids[rd["id"]]
+                m["referencedDecl"] = rd
+            if "inner" in n:
+                m["inner"] = [rw(x) for x in n["inner"]]
+            return m
+        stmts = [rw(x) for x in kids(hbody)]        # declarations precede their uses in source order
+        if rets:
+            last = stmts.pop()
+            rv = kids(last)[0] if kids(last) else None
+            if target is not None:
+                stmts.append({"kind": "BinaryOperator", "opcode": "=", "type": target.get("type", {}), "valueCategory": "prvalue",
+                              "_line": c.get("_line"), "inner": [target, rv]})
+            elif rv is not None:
+                stmts.append(rv)
+        block = {"kind": "CompoundStmt", "_line": c.get("_line"), "_inlined": hname, "inner": stmts}
+        site_text = ctext(par if target is not None and decl_stmt is None else c)[:80]
+        cont, i = slot
+        keep.append(cont["inner"][i])
+        if decl_stmt is not None:
+            par["inner"] = [x for x in par.get("inner", []) if x is not top]
+            par.pop("init", None)
+            cont["inner"][i:i + 1] = [decl_stmt, block]
+        else:
+            cont["inner"][i] = block
+        _reparent(tu, fd, tu.parent.get(id(fd)))
+        done.append((hname, site_text))
+    raise AnalysisError("%s(): more than %d helper calls to inline" % (fname, rounds))
+
 
 
 class Dec:
@@ -1315,6 +1703,13 @@ class Dec:
             if g:
                 return True, g
             ok, txt = self.by_counter(node, var, base)
+            if not ok:
+                # guarded, but by a bound that is not a function of the length (a value computed at run time):
+                # the rule cannot evaluate it -- no verdict
+                odd = [bt for (bt, _) in fm.upper_bounds(fm.atoms(node), var) if not free_vars(bt) <= fm.invariant]
+                if odd:
+                    raise AnalysisError("%s(): index `%s` of `%s` is guarded by `%s < %s`, a bound the rule cannot evaluate" % (
+                        FN, var, base, var, X.show(odd[0])[:50]))
             if ok is None:
                 return False, "no dominating guard `%s < extent`; %s" % (var, txt)
             return ok, txt if ok else "no dominating guard `%s < extent`; %s" % (var, txt)
@@ -1373,6 +1768,11 @@ def mask_test(t):
         if len(cs) == 1 and len(rest) == 1:
             return rest[0], cs[0][1]
     return None
+
+
+def is_freq_mask(t, freq):
+    """lowered `freq[k].mask`"""
+    return t[0] == "call" and t[1] == ".mask" and len(t) == 3 and t[2][0] == "idx" and t[2][1] == X.V(freq)
 
 
 def r1_gate(L, D):
@@ -1556,15 +1956,27 @@ def r4_order(L, D):
     L.ob(R, F_SYS, FN, "the candidate loop is left early only when the list is full (a test of the fill counter)",
          "no other early exit", "no other early exit" if not full else "exit at line %s" % fm.nline(full[0]), not full, fm.line(li["stmt"]))
     # FREQ_TYPE_SERV filter on the very ARFCN that is stored
-    filt = []
+    filt, other_tests = [], []
+    known = {v, cnt, D.P_LEN, D.P_SI4} | fm.invariant
     for (t, p, c, l) in fm.atoms(S):
         mt = mask_test(t)
-        if mt and mt[0][0] == "call" and mt[0][1] == ".mask" and mt[0][2][0] == "idx" and mt[0][2][1] == X.V(D.P_FREQ):
+        if mt and is_freq_mask(mt[0], D.P_FREQ):
             filt.append((mt[0][2][2], mt[1], p))
+        elif any(is_freq_mask(x, D.P_FREQ) for x in subterms(t)):
+            filt.append((None, None, p))            # a test of the frequency entry that is not a test of one flag
+        elif not free_vars(t) <= known:
+            other_tests.append(t)
+    if not filt and other_tests:
+        # the store is conditional on something the rule cannot read (a value kept in memory, an opaque call):
+        # it may well be the serving-cell test in a shape that is not recognised -- no verdict
+        raise AnalysisError("%s(): the condition `%s` under which a candidate enters the list cannot be classified" % (
+            FN, X.show(other_tests[0])[:80]))
     L.ob(R, F_SYS, FN, "a candidate enters the list only if its frequency entry has FREQ_TYPE_SERV (0x%02x)" % D.K["SERV"],
-         [("mask & 0x%02x" % D.K["SERV"], True)], [("mask & 0x%02x" % m, p) for (_, m, p) in filt],
+         [("mask & 0x%02x" % D.K["SERV"], True)], [("mask & 0x%02x" % m if m is not None else "mask (not a flag test)", p) for (_, m, p) in filt],
          len(filt) == 1 and filt[0][1] == D.K["SERV"] and filt[0][2], fm.line(w.ast))
     for (it, m, p) in filt[:1]:
+        if it is None:
+            continue
         if not free_vars(it) <= {v}:
             raise AnalysisError("%s(): filter index `%s` unclassifiable" % (FN, X.show(it)))
         bad = None
@@ -1594,14 +2006,18 @@ def r4_order(L, D):
                 break
         L.ob(R, F_SYS, FN, "the walk covers exactly the bit indices 0 .. 8*%s-1 in ascending order" % D.P_LEN,
              "bits 0..8*%s-1" % D.P_LEN, badr or "bits 0..8*%s-1" % D.P_LEN, badr is None, fm.line(l2["stmt"]))
-        tests = []
+        tests, unread = [], []
         for (t, p, c, l) in fm.atoms(H):
             if X.V(D.P_MA) not in subterms(t):
+                if not free_vars(t) <= {b, cnt, D.P_LEN, D.P_SI4} | fm.invariant:
+                    unread.append(t)
                 continue
             sh = bit_shape(t, D.P_MA)
             if sh is None:
                 raise AnalysisError("%s(): bitmap test `%s` has a shape the rule cannot classify" % (FN, X.show(t)))
             tests.append(sh + (p,))
+        if not tests and unread:
+            raise AnalysisError("%s(): the condition `%s` under which an entry is emitted cannot be classified" % (FN, X.show(unread[0])[:80]))
         L.ob(R, F_SYS, FN, "an entry is emitted only under exactly one test of a bitmap bit, taken when the bit is set",
              "1 test, bit set", "%d tests%s" % (len(tests), "" if all(x[2] for x in tests) else ", taken when the bit is clear"),
              len(tests) == 1 and tests[0][2], fm.line(hw.ast))
@@ -1622,6 +2038,13 @@ def r4_order(L, D):
              val == ("idx", X.V(arr), X.V(b)), fm.line(hw.ast))
         # index past the list ends decoding
         lim = [(a[2], a[3]) for a in fm.atoms(H) if cnt and a[0] == ("cmp", "<", X.V(b), X.V(cnt)) and a[1] and fm.stable(H, a, [b, cnt])]
+        if not lim:
+            # the emitted index is bounded by a value the rule cannot relate to the number of list entries
+            # (neither the fill counter nor a constant of the call): it may be that number -- no verdict
+            odd = [bt for (bt, _) in fm.upper_bounds(fm.atoms(H), b) if not free_vars(bt) <= fm.invariant | {b, cnt}]
+            if odd:
+                raise AnalysisError("%s(): the bound `%s` on the index of an emitted entry cannot be related to the number of list entries" % (
+                    FN, X.show(odd[0])[:60]))
         ends = bool(lim) and all(H.id not in fm.reach_succ(c, label=(not l)) for (c, l) in lim)
         other = []
         h_atoms = {(a[0], a[1]) for a in fm.atoms(H)}
